@@ -25,8 +25,23 @@ MANIFEST = {
             "conflict payload (also through type_of); C02_unify_order_dependent_refuted exhibits, just outside the fragment, one "
             "judgement set per known class (K1, Packed x Word, C16's K2, dynamic bytes) on which Sorted and SortedReversed differ. "
             "The C14 check evaluates the fragment predicate on every generated judgement set and compares the implementation under "
-            "both orders inside it. Not proved: the lifting through the rest of the pipeline, and order independence up to renaming "
-            "of fresh variables for packed encodings outside the known classes (partial).",
+            "both orders inside it. END TO END (props/C02_pipeline.v, composed model coq/Pipeline.v split after inference, vocabulary "
+            "coq/PipelineOrderDefs.v): on the decidable fragment `order_fragment` = order_free + `seen_safe` (two constructed types "
+            "whose components lie pairwise in one class are in one class -- abi_type_for_impl's never-popped `seen` set of type "
+            "EXPRESSIONS otherwise reports InfiniteType depending on which evidence item the fold made the class's type) + `wf_b` "
+            "(only allocated variables named, an entry for every allocated variable), pipeline_back_order_independent / "
+            "pipeline_order_independent state that unification under ANY two hook records followed by the layout loop over ANY two "
+            "permutations of the values returns the same rows (equal lists when no two different rows share a (slot, offset) key, "
+            "equal multisets of key-sorted rows in general) or fails in both runs, for every program, hash function, table and fuel "
+            "(rounds >= |vars| + 2); pipeline_unify_order_independent gives equal lists and equal failure kinds when only the "
+            "unifier's orders differ; pipeline_order_dependent_refuted exhibits a judgement set INSIDE order_free but outside "
+            "seen_safe (a mapping reported with an InfiniteType value under Sorted only) and C16's K1 as the type of a slot. Stage "
+            "lemmas: unify_data_total (every registered variable's class has a data entry after unify) and "
+            "abi_type_for_respects_classes. The check evaluates `order_fragment` inside Coq on the judgement set of EVERY program "
+            "(completed with the empty entries the dump omits) and reports an order dependence observed inside the fragment under its "
+            "own code C02:fragment. Not proved: invariance of the front half (collection, registration, inference) under the "
+            "renaming of type variables that a different visiting order causes -- the theorems fix the judgement set -- and order "
+            "independence up to renaming of fresh variables for packed encodings outside the known classes (partial).",
     "note": "Trusted: Coq kernel; hooks H1/H2 (guarded, add-only); harness. Natural-order nondeterminism is sampled, forced orders are "
             "deterministic and replayable.",
     "technique": "forced-iteration-order differential search on the real code (hook H1) + Coq classification of order dependences by "
@@ -48,6 +63,7 @@ def check(ctx):
     vlib.translate(ctx)
     vlib.prove(ctx, "props/C02.v", ["OrderCases.vo", "OrderUnifyCases.vo"])
     vlib.prove(ctx, "props/C02_unify.v")   # the unification stage: order independence on the order-free fragment
+    vlib.prove(ctx, "props/C02_pipeline.v", ["OrderPipelineCases.vo"])   # unify + layout loop on the composed model
     hb = vlib.harness_bin(ctx)
     rng = ctx.rng
     bw = gen.boundary_words()
@@ -82,6 +98,25 @@ def check(ctx):
             outs = [norm(r[i]) for r in results]
             if any(o != outs[0] for o in outs[1:]):
                 nondet.append(i)
+        # the fragment of props/C02_pipeline.v, evaluated inside Coq on the judgement set of every program
+        ok, jall, diag = vlib.run_harness_sharded(hb, ["judgements"], [gen.vm_line(c, cfg) + " all sorted" for c in keys])
+        ctx.oblige("harness:judgements:fragment", "search", ok, diag)
+        with_j = [(i, j) for i, j in enumerate(jall) if j.startswith("[")]
+        fheader = ("From Coq Require Import String.\nFrom SLX Require Import Base gen.WordUseTable TypeExpr Merge MergeCases OrderCases "
+                   "OrderPipelineCases.\nOpen Scope string_scope. Open Scope N_scope.\n")
+        fhits = vlib.run_cases(ctx, "fragment", fheader, [L.hexify("(%s : xjudgements)" % j) for _, j in with_j],
+                               per_shard=max(1, len(with_j) // 16 + 1), fn="fragment_code")
+        outside = dict((with_j[k][0], code) for k, code in fhits)
+        inside_idx = set(i for i, _ in with_j if i not in outside)
+        frag_cov = {"judgement_sets": len(with_j), "inside_order_fragment": len(inside_idx),
+                    "outside_order_free": sum(1 for c in outside.values() if c == 1),
+                    "order_free_but_not_seen_safe": sum(1 for c in outside.values() if c == 2),
+                    "not_well_formed": sum(1 for c in outside.values() if c == 3),
+                    "no_judgement_set(earlier stage failed)": len(keys) - len(with_j),
+                    "inside_with_nonempty_layout": sum(1 for i in inside_idx if results[3][i].count("(AT") >= 1),
+                    "inside_and_order_dependent": len([i for i in nondet if i in inside_idx]),
+                    "order_free_but_not_seen_safe_and_order_dependent": len([i for i in nondet if outside.get(i) == 2])}
+        ctx.log("fragment: %s" % frag_cov)
         # classify the order-dependent programs from their judgement sets
         if nondet:
             lines = [gen.vm_line(keys[i], cfg) + " all" for i in nondet]
@@ -100,7 +135,10 @@ def check(ctx):
                 rep = {"code": c.hex(), "config": list(cfg), "orders": ORDERS, "distinct_results": distinct[:4],
                        "how": "for o in natural reversed sorted sortedrev seed:1; do echo '<code> 30000000 5 10 250 394 0 100 -1 all '$o | "
                               "build/harness-target/debug/slxh analyze; done"}
-                if i in known_idx:
+                if i in inside_idx:
+                    ctx.violate("C02:fragment:%s" % c.hex()[:48], "the layout depends on iteration order although the judgement set is INSIDE "
+                                "order_fragment (props/C02_pipeline.v): %s" % c.hex()[:160], rep)
+                elif i in known_idx:
                     ctx.violate("C02:K1", "order-dependent layout, evidence in merge's known class: %s" % c.hex()[:100], rep)
                 elif i in packed_idx:
                     ctx.violate("C02:K-packed", "order-dependent layout, packed evidence on which merge's fold orders disagree: %s" % c.hex()[:100], rep)
@@ -109,6 +147,7 @@ def check(ctx):
         multi = len([1 for r in results[0] if r.count("(AT") >= 1])
         ctx.coverage.update({"evaluations": len(keys) * len(ORDERS), "distinct_nontrivial": multi,
                              "programs": len(keys), "orders": ORDERS, "order_dependent_programs": len(nondet),
+                             "fragment": frag_cov,
                              "input_classes": dict(collections.Counter(progs.values()))})
     return vlib.finish(ctx, rule="programs x 8 iteration orders (2 natural runs + 6 forced); non-trivial = the analysis produced a layout "
                        "with at least one entry", samples=[c.hex()[:100] for c in keys[:3]])
